@@ -5,14 +5,15 @@ LEVEL_TEXT = (
     "PROVED (unbounded in the grid, z3; unit lengths 14 (default), 3 and 4; no cell values supplied): MazePlot._lattice_maze_to_img returns an image of size (rows*ul+1) x (cols*ul+1) with "
     "one block per cell (pixels whose row and column are not multiples of ul carry the cell value 1), one separator strip per lattice edge drawn as PASSAGE (the connection value) exactly when the two "
     "cells are connected and as WALL (-1) otherwise, and wall on every other pixel (corners, top row, left column) - two nested loop invariants; MazePlot._rowcol_to_coord maps (row, col) to "
-    "(x, y) = (ul*(col+0.5), ul*(row+0.5)): rows vertical, columns horizontal, through the cell centre. Bounded for the rest: "
+    "(x, y) = (ul*(col+0.5), ul*(row+0.5)): rows vertical, columns horizontal, through the cell centre; MazePlot._plot_path (line branch, any unit length, any path length >= 1) hands Axes.plot one point per listed cell, "
+    "in the listed order, x from the column and y from the row, and puts the start / end markers on the first / last listed cell (calls of the opaque Axes object are recorded as events). Bounded for the rest: "
     + "Bounded: the image builder's blocks and strips against the connection structure for unit lengths {3,4,14}, with/without cell values; image and path data read back from the matplotlib Axes; ASCII export."
 )
 LEVEL_NOTE = "Trusted: matplotlib draws what it is given; floats as reals; `row * unit_length` is linear only for a constant unit length, hence the three values (other unit lengths and the node-value branch are bounded only)."
 TECHNIQUE = "contract-based deductive verification of the image builder and the coordinate map (loop invariants over the real AST, z3) + bounded read-back of what is handed to matplotlib"
 CONTRACT_MODULES = ["contracts.plotting"]
 PM = "maze_dataset/plotting/plot_maze.py"
-PROVE = [(PM, "MazePlot._rowcol_to_coord"), (PM, "MazePlot._lattice_maze_to_img")]
+PROVE = [(PM, "MazePlot._rowcol_to_coord"), (PM, "MazePlot._lattice_maze_to_img"), (PM, "MazePlot._plot_path")]
 ASSUMPTIONS = []
 EXPLANATION = "see DESIGN.md C20"
 
